@@ -103,20 +103,36 @@ def update_rows(prog: Program) -> Dict[str, Any]:
     I = Interp(prog)
     fn = prog.function(CORE, "TagAttrDict.update")
     loops = loops_of(fn)
-    fors = [l for l in loops if isinstance(l, ast.For)]
-    if len(fors) < 2:
-        raise Unmodelled("TagAttrDict.update: expected an outer loop over the argument dicts and an inner loop over items")
-    inner = None
+    inner: Any = None
     for i, l in enumerate(loops):
         for j, o in enumerate(loops):
             if o is not l and any(n is l for n in ast.walk(o)):
                 inner = i
-    if inner is None:
-        raise Unmodelled("TagAttrDict.update: no nested item loop")
-    cfg = Config()
-    cfg.stop_at_loop = ("TagAttrDict.update", inner)
     a = fn.args
     ctx_holder: Dict[str, Any] = {}
+    stop_key: Any = ("TagAttrDict.update", inner) if inner is not None else None
+    if stop_key is None:
+        # the item loop lives in a helper: it is the loop over <argument dict>.items(), wherever it is
+        def mk0(run: Any) -> Tuple[Dict[str, Any], Any]:
+            s0 = SObj("self", {"TAGATTRDICT"})
+            d0 = SObj("arg0", {"DICT"})
+            d0.meta["value_kinds"] = ANY_VALUE_KINDS
+            run.__dict__["d0"] = d0
+            if a.vararg is None or a.kwarg is None:
+                raise Unmodelled("TagAttrDict.update signature is not (*args, **kwargs)")
+            return ({a.args[0].arg: s0, a.vararg.arg: (d0,), a.kwarg.arg: SDict()}, s0)
+
+        cfg0 = Config()
+        cfg0.loop_effects = False
+        for l0 in I.run_function(CORE, "TagAttrDict.update", mk0, cfg0):
+            for rec0 in l0.run.loops:
+                d_ = getattr(rec0.iter_value, "iter_descr", None)
+                if stop_key is None and d_ is not None and d_[0] == "items" and d_[1] is l0.run.__dict__["d0"]:
+                    stop_key = rec0.__dict__.get("loop_key")
+        if stop_key is None:
+            raise Unmodelled("TagAttrDict.update: expected an outer loop over the argument dicts and an inner loop over items")
+    cfg = Config()
+    cfg.stop_at_loop = stop_key
 
     def mk(run: Any) -> Tuple[Dict[str, Any], Any]:
         s = SObj("self", {"TAGATTRDICT"})
@@ -170,7 +186,7 @@ def update_rows(prog: Program) -> Dict[str, Any]:
         rows.append(r)
     if not rows:
         raise Unmodelled("TagAttrDict.update: item loop produced no paths")
-    return {"rows": rows, "inner_loop": inner, "fn": fn}
+    return {"rows": rows, "inner_loop": stop_key, "fn": fn}
 
 
 def normalize_value_table(prog: Program) -> Dict[str, Any]:
